@@ -8,7 +8,7 @@ import someip.header as H
 import someip.sd as SD
 import someip.service as S
 
-from harness import core, gen, mutate, sdio, vloop
+from harness import core, gen, mutate, scen, sdio, stackdrv as SDV, stateful, vloop
 from harness.gen import hx
 from harness.props.c01 import canon, gen_header, mk
 from harness.sdio import exc_name, opt_tok, entry_tok, sd_tok
@@ -323,6 +323,20 @@ def run(ctx: core.Ctx) -> core.Report:
                 rep.nontrivial.add(("live", k, len(data) % 11))
     finally:
         _random.uniform = saved_uniform
+    # ---- (2b) the same kind of input into a live stack that is compared STEP BY STEP with the Lean stack model:
+    #           ties the model's receive path (decoders inside message_received) to the code on malformed input
+    def make(rng2, k):
+        tm = SDV.TimingsSpec(initMin=0, initMax=0, reps=0, cyclic=rng2.choice([0, 300]), coll=rng2.choice([0, 5]), refresh=None)
+        svcs = [C.Service(0x1111, 1, 1, 1, eventgroups=frozenset({5, 6}))][: rng2.randrange(0, 2)]
+        sc = scen.Scenario(rng2, tm, svcs, {"mutant": 8, "offer": 3, "sub": 3, "find": 1, "watch": 2, "life": 1}, nsteps=rng2.choice([30, 60]))
+        return sc
+
+    def no_raise(sc, res, rep2, case):
+        for it in sc.rec.items:
+            if it[0] == "out" and it[2].startswith("raised "):
+                rep2.violation("C03:sd-endpoint-raises:" + it[2].split(" ")[1], f"receive path raised {it[2].split(' ')[1]} at {it[1]}", case)
+
+    stateful.run_scenarios(ctx, rep, make, no_raise, ctx.n(40, 600), "c03-lockstep")
     # ---- (3) live service endpoint
     for i in range(ctx.n(300, 5000)):
         rep.evaluations += 1
